@@ -67,7 +67,7 @@ def probe_crate(dirpath, feats, std, derives):
     return items
 
 
-def check_config(worker, feats, std, derives, do_tests, tests):
+def check_config(worker, feats, std, derives, do_tests, tests, clean=False):
     """Returns list of (kind, detail) problems and number of cargo steps."""
     tdir = os.path.join(TARGET, "features-%d" % worker)
     fl = ",".join(feats)
@@ -127,6 +127,15 @@ def check_config(worker, feats, std, derives, do_tests, tests):
             if p.returncode != 0:
                 problems.append(("repository test `%s` fails in this configuration" % t, last_error(p.stderr + p.stdout)))
     shutil.rmtree(pdir, ignore_errors=True)
+    if clean:
+        # keep the shared dependency builds (syn, quote, ...), drop this configuration's own artefacts (disk is limited)
+        for sub in ("debug/deps", "debug/.fingerprint", "debug/incremental"):
+            d = os.path.join(tdir, sub)
+            if os.path.isdir(d):
+                for name in os.listdir(d):
+                    if name.startswith(("derive_more", "libderive_more", "c20probe", "libc20probe")) or re.match(r"^(lib)?(add|as_|constructor|debug|deref|display|error|from|index|into|is_variant|mul|not|sum|try_|unwrap|generics|lib|no_std|boats)", name):
+                        path = os.path.join(d, name)
+                        (shutil.rmtree if os.path.isdir(path) else os.remove)(path)
     return problems, steps
 
 
@@ -157,7 +166,7 @@ def run(chk, tier):
     def work(i):
         out = []
         for (fs, std, do_tests) in chunks[i]:
-            out.append(((fs, std), check_config(i, fs, std, derives, do_tests, tests)))
+            out.append(((fs, std), check_config(i, fs, std, derives, do_tests, tests, clean=thorough)))
         return out
 
     with ThreadPoolExecutor(max_workers=P) as pool:
